@@ -131,7 +131,7 @@ def strat_vecrot(tier):
 def check_axisrot(r) -> list[Fail]:
     from molli.math import rotation_matrix_from_axis
 
-    ax = np.array(r["axis"], dtype=float)
+    ax = np.array(r["axis"], dtype=float) * r.get("scale", 1.0)      # (an axis is a direction: very short and very long ones included)
     th = r["angle"]
     ax_given = ax.copy()
     R = np.asarray(rotation_matrix_from_axis(ax, th), dtype=float)
@@ -166,7 +166,7 @@ def check_axisrot(r) -> list[Fail]:
 
 def strat_axisrot(tier):
     ang = st.one_of(st.floats(-7, 7), st.sampled_from([0.0, math.pi, -math.pi, math.pi / 2, -math.pi / 2, 2 * math.pi + 0.3, 1e-9]))
-    return st.fixed_dictionaries({"axis": _vec, "angle": ang})
+    return st.fixed_dictionaries({"axis": _vec, "angle": ang, "scale": st.sampled_from([1.0, 1.0, 1.0, 1e-9, 3e-12, 1e7])})
 
 
 # ---------------------------------------------------------------- rigid motions
